@@ -51,21 +51,32 @@ def genMixed (pipe : String) (n : Nat) (malformedPct : Nat := 0) : G (List Strin
     let e := exps.getD ei default
     clock := clock + (← range 1 1000000000)
     let proto ← below 10
-    let d ← if proto < 6 then do
+    -- the datagram and, for well-formed ones, the number of flow records it carries (specification side)
+    let willMutate := (← below 100) < malformedPct
+    let (d, nflows) ← if proto < 6 then do
         let version ← pick [9, 10]
         let dom ← pick domains
         let sc : Scope := (ei, version, dom)
         let kn := (known.lookup sc).getD []
         let (m, kn') ← Netflow.genMsg version dom kn
-        known := (sc, kn') :: known.filter (fun x => x.1 != sc)
-        pure (Spec.Netflow.encode m)
-      else if proto < 8 then v5Datagram
-      else if pipe = "nf" then v5Datagram
+        -- a mutated datagram may or may not get its templates learned: forget the scope, so that later
+        -- messages re-announce what they use
+        known := (sc, if willMutate then [] else kn') :: known.filter (fun x => x.1 != sc)
+        pure (Spec.Netflow.encode m, Spec.Netflow.flowRecords m)
+      else if proto < 8 ∨ pipe = "nf" then do
+        let k ← range 0 8
+        let rs ← listOf k C05.genRecord
+        let h ← C05.genHeader k
+        pure (Spec.V5.encode h rs, k)
       else do
         let dg ← Sflow.genDatagram
-        pure (Spec.Sflow.encode dg)
-    let d ← if (← below 100) < malformedPct then mutate d else pure d
-    out := out ++ [pktLine pipe e clock d]
+        pure (Spec.Sflow.encode dg, Spec.Sflow.flowSamples dg)
+    if willMutate then
+      let d' ← mutate d
+      -- truncated / inflated datagrams never yield more messages than the intact one carries records
+      out := out ++ [pktLine pipe e clock d'] ++ (if d'.length < d.length ∧ d.take d'.length == d' then ["expect @maxcount " ++ toString nflows] else [])
+    else
+      out := out ++ [pktLine pipe e clock d, "expect @res ok", "expect @count " ++ toString nflows]
   pure out
 
 end Goflow.Gen.History
